@@ -2,13 +2,22 @@ import Driver.Latch
 import Driver.LockFam
 import Driver.Barrier
 import Driver.Rcu
+import Driver.LR
+import Driver.HB
+import Driver.DD
+import Driver.Deferred
+import Driver.Trigger
 import Driver.TripWire
+import Driver.SOH
+import Driver.DObj
+import Driver.Cow
 open Driver
 
-def comps : List Comp := [LatchD.comp, LockFamD.comp, BarrierD.comp, RcuD.comp, TripWireD.comp]
+def comps : List Comp := [LatchD.comp, LockFamD.comp, BarrierD.comp, RcuD.comp, DeferredD.comp, TripWireD.comp, SOHD.comp, SOHD.compNoTap, TriggerD.comp, DDD.comp, DObjD.comp, LRD.comp, LRD.compStrict, CowD.comp, CowD.compStrict]
 
 def main (args : List String) : IO UInt32 := do
   match args with
+  | ["hb"] => Driver.HBD.run
   | [name] =>
       match comps.find? (·.name == name) with
       | some c => runComp c
